@@ -283,6 +283,8 @@ Definition guard_path (s : state) (l : label) : bool :=
   | _ => true
   end.
 
+Definition guard_all (s : state) (l : label) : bool := guard_fence s l && guard_noflap s l && guard_path s l.
+
 Fixpoint guarded (g : state -> label -> bool) (s : state) (ls : list label) : bool :=
   match ls with [] => true | l :: r => g s l && guarded g (step s l) r end.
 
